@@ -16,15 +16,15 @@ TEXT = {
          "byte-exactness through net/http, cross-key ordering, observability timing"),
  "C04": ("every blocking channel operation has a ctx.Done arm, context errors reach the client only through a translator, handler context descends from the caller's, handler context errors translated, re-check after receive, a server stream's Context() returns the derived context, the unary reply body is read off the caller's goroutine, a cancelling finalizer sits on an object the blocked operation keeps reachable",
          "'promptly' (timing), outcome distribution of genuine races"),
- "C05": ("guarded-by discipline, close-at-most-once arguments, no send after close, lock order/release, panic inventory with invariants, goroutine and CancelFunc inventory, a client stream that fails the call on its own cancels it",
+ "C05": ("guarded-by discipline, close-at-most-once arguments, no send after close, lock order/release, panic inventory with invariants, goroutine and CancelFunc inventory, a client stream that fails the call on its own cancels it, the reply is drained only after the stream was completed (order of deferred effects), the HTTP server stream does not touch its ResponseWriter after the handler returned (finished fence), one receive per handler RecvMsg, frames are flushed by the frame writer alone, the server drains the request to its end, atomic.Value typing",
          "global deadlock freedom over all interleavings, bounded time"),
  "C06": ("caller-owned messages stay on the caller's goroutine, only clones cross, receive overwrites, default cloner installed before capture, the configured cloner reaches the channel (setter plumbing), no pooled or package-level holder of messages",
          "deepness of user cloners, object-graph disjointness as a value fact"),
  "C07": ("allocation bounded by a verified length, truncation is an error, no fabricated message, no panic on any bytes",
          "total memory, 'exactly the encoded messages' as a value fact"),
- "C08": ("single-response probe with three-way discrimination, unary in-process response counting, server-side second-request probe, the nil-response predicate recognises the typed nil pointer, every successful send handed over exactly one frame, each handler kind keeps to its own framing",
+ "C08": ("single-response probe with three-way discrimination, unary in-process response counting, server-side second-request probe, the nil-response predicate recognises the typed nil pointer, every successful send handed over exactly one frame, each handler kind keeps to its own framing, the unary HTTP reply is encoded only where a response is present, a handler's send is turned away only for state (never for a count of its own)",
          "code parity with the reference"),
- "C09": ("timeout header emitted iff deadline, unit table agreement with the wire spec, floor + clamp, no wrap-around, parser cannot crash, timeout computed anew for every request issue, deadline applied before the request body is awaited and carried by the context handed to the handler",
+ "C09": ("timeout header emitted iff deadline, unit table agreement with the wire spec, floor + clamp, no wrap-around, parser cannot crash, timeout computed anew for every request issue, deadline applied before the request body is awaited and carried by the context handed to the handler, the timeout header is read on every accepting path, signed 64-bit parse, no cross-call cache of header sets, no detaching context step between the caller's context and the request's",
          "run-time numeric bounds (clock, transit), negative timeouts"),
  "C10": ("value-blocking wrapper blocks all keys, handler context passes through it with only sanctioned values re-attached, metadata copied, peer and back-door, the transport stream's Method() reports the stored name",
          "library semantics of context/metadata (trusted)"),
